@@ -198,7 +198,7 @@ func closedGuarded(c *Ctx, e *lckEngine, fn *ssa.Function, send ssa.Instruction,
 
 func runC16(c *Ctx) {
 	c16Extra(c)
-	c.rule("C16-R7", "PAIR: the hub neither deadlocks: every Lock/RLock in pkg/websocket is released on every path to a return (explicit or deferred Unlock)")
+	c.rule("C16-R7", "PAIR: the hub neither deadlocks: every Lock/RLock in pkg/websocket is released on every path to a return (explicit or deferred Unlock); REACQ: no method calls, while it holds its receiver's mutex, a method of the same receiver that acquires that mutex again (sync mutexes are not re-entrant; a second RLock blocks once a writer waits)")
 	c.Sites["C16-R7#acquire-sites"] = lockReleaseAudit(c, "C16-R7", []string{wsPkg})
 	c.floor("C16-R7", 15)
 	// ---- R1 lockset
